@@ -1,9 +1,14 @@
 import Swat4.Drv.GS1Render
+import Swat4.Drv.Store
+import Swat4.Model.Details
+import Swat4.Spec.Details
 /-!
 Driver side of C07:
 
 * `C07 q <timeout_ms> <dgrams> => <result tokens…>`       scripted responder, then silence
 * `C07 flood <timeout_ms> <dgram> => <result tokens…>`    one datagram repeated until the query returns
+* `C07 dp <timeout_ms> <dgrams> => ok:<details> | err-timeout | err-query | err-parse | err-validate | …`
+  the real details prober against the same responder; model: `DetailsProbe.probe`
 
 The model result is `runQuery` over the datagrams (for `flood`: over three copies — every further
 copy of the same datagram leaves `collectPayload`'s result unchanged).
@@ -24,12 +29,81 @@ def sigOf (out : List String) : String :=
   | h :: _ => if h.startsWith "panic:" then "sig=panic" else if out.contains "late" then "sig=late" else "sig=class"
   | [] => "sig=empty"
 
+/-! ## op `dp` -/
+
+def renderProbe : DetailsProbe.ProbeResult → List String
+  | .ok d => ["ok:" ++ renderDetails d]
+  | .errTimeout => ["err-timeout"]
+  | .errQuery => ["err-query"]
+  | .errParse => ["err-parse"]
+  | .errValidate => ["err-validate"]
+  | .panic => ["panic:model"]
+  | .hang => ["hang:model"]
+
+/-- one rendered field value back, by kind (0 int, 1 bool, 2 string) -/
+def val? (kind : Nat) (s : String) : Option Val :=
+  if kind = 0 then (int? s).map .int
+  else if kind = 1 then (if s = "1" then some (.bool true) else if s = "0" then some (.bool false) else none)
+  else if kind = 2 then (hex? s).map .str
+  else none
+
+def fields? (kinds : List Nat) (s : String) : Option Fields :=
+  let parts := s.splitOn ":"
+  if parts.length = kinds.length then (kinds.zip parts).mapM fun (k, p) => val? k p else none
+
+def slice? (kinds : List Nat) (s : String) : Option (List Fields) :=
+  if s = "" then some [] else (s.splitOn "/").mapM (fields? kinds)
+
+/-- `canon.Of(details.Details)` back: `(info):[player/…]:[objective/…]` -/
+def details? (s : String) : Option Details :=
+  match s.splitOn "):[" with
+  | [a, rest] =>
+    match rest.splitOn "]:[" with
+    | [p, o] =>
+      if a.startsWith "(" ∧ o.endsWith "]" then do
+        let i ← fields? DetailsSpec.infoKinds (a.drop 1).toString
+        let ps ← slice? DetailsSpec.playerKinds p
+        let os ← slice? DetailsSpec.objectiveKinds (o.dropEnd 1).toString
+        pure ⟨i, ps, os⟩
+      else none
+    | _ => none
+  | _ => none
+
+def dpErrClasses : List String := ["err-timeout", "err-query", "err-parse", "err-validate"]
+
+/-- what the returned value must satisfy when the prober answers `ok:` (evaluated on the implementation's output) -/
+def okAccepted (h : String) : Bool :=
+  match details? (h.drop 3).toString with
+  | some d => DetailsSpec.accepted d
+  | none => false
+
+/-- the oracle of C07 on the details prober's output: no panic, not late, an error class or a details value
+that satisfies every validated constraint (`DetailsSpec.accepted`) -/
+def dpOracle (out : List String) : Bool :=
+  match out with
+  | [] => false
+  | h :: _ =>
+    !(h.startsWith "panic:") && !(out.contains "late") && !(h.startsWith "harness-error") &&
+      (dpErrClasses.contains h || h.startsWith "err-other" || (h.startsWith "ok:" && okAccepted h))
+
+def dpSig (out : List String) : String :=
+  match out with
+  | h :: _ =>
+    if h.startsWith "panic:" then "sig=panic" else if out.contains "late" then "sig=late"
+    else if h.startsWith "ok:" then "sig=accepted-invalid" else "sig=class"
+  | [] => "sig=empty"
+
+def handleDp (ds : List Bytes) (out : List String) : Verdict :=
+  let model := renderProbe (DetailsProbe.probe ds)
+  verdict (model == out) (dpOracle out) s!"{dpSig out} model={" ".intercalate model}"
+
 def handle (args out : List String) : Verdict :=
   match args with
   | [op, _tmo, d] =>
     match dgrams? d with
     | none => .bad "dgrams"
     | some ds =>
+      if op = "dp" then handleDp ds out else
       let ds' := if op = "flood" then ds ++ ds ++ ds else ds
       if op ≠ "q" ∧ op ≠ "flood" then .bad "C07 op" else
       let model := renderQResult (runQuery ds')
